@@ -140,6 +140,24 @@ theorem read_write_quote (d : Datum) (h : WF d = true) (hd : d.depth + 1 ≤ 128
   · simp only [Datum.quote, Datum.depth, depths]
     omega
 
+/-! ## the writer's nesting counter -/
+
+/-- `write_depth_balanced`: `format_with_cycles` modelled with its mutable counter (`writeSt`: `depth += 1`
+    on entry, `depth -= 1` on every way out) leaves the counter where it found it, for every datum and every
+    starting value — so what is printed for an element never depends on the elements printed before it —
+    and it prints exactly what the functional writer `writeAt` (depth as a parameter) prints. -/
+theorem write_depth_balanced (d : Datum) (depth : Nat) :
+    (writeSt d depth).2 = depth ∧ (writeSt d depth).1 = writeAt depth d := by
+  rw [writeSt_eq d depth]; exact ⟨rfl, rfl⟩
+
+/-- the same for a sequence of siblings: after any number of elements the counter is unchanged -/
+theorem write_depth_balanced_seq (xs : List Datum) (depth : Nat) :
+    (writeSeqSt xs depth).2 = depth ∧ (writeSeqSt xs depth).1 = writeSeq depth xs := by
+  rw [writeSeqSt_eq xs depth]; exact ⟨rfl, rfl⟩
+
+/-- non-vacuity: 200 empty vectors in a row do not use up the 128 levels -/
+example : (writeSeqSt (List.replicate 200 (.vec [])) 1).2 = 1 := (write_depth_balanced_seq _ _).1
+
 /-! ## non-vacuity -/
 
 /-- a datum with every constructor of the class: nested lists, a pair, a vector, a byte vector,
